@@ -16,6 +16,8 @@ void hv_setup(void) { ncorpus = tl_corpus(&corpus); const char *root = getenv("V
 #define UNIV 320          /* PU indexes modelled */
 #define MAXREG 48
 #define MAXPAIR 6
+static int RANK_USES_FORCED = 1;
+static int HWLIKE;      /* per case: 0 arbitrary info pairs, 1 frequency-first, 2 core-type-first registrations */
 static const char *NAMES[] = { "FrequencyMaxMHz", "FrequencyBaseMHz", "CoreType", "CustomKind", "a<&\"b", "X" };
 static const char *VALUES[] = { "1000", "2400", "3000", "IntelAtom", "IntelCore", "big", "", "v&<>\"'", "2400 " };
 struct reg { int forced; int opaque_forced; unsigned np; char *n[MAXPAIR]; char *v[MAXPAIR]; };   /* a registration (or a kind found at load) */
@@ -96,7 +98,7 @@ static void check_model(const char *after)
     /* efficiencies: all -1, or the identity permutation */
     int unknown = 0, ident = 1; for (int k = 0; k < nr; k++) { if (eff[k] == -1) unknown++; if (eff[k] != k) ident = 0; }
     if (nr && !(unknown == nr || ident)) { char s[300]; int off = 0; for (int k = 0; k < nr && off < 280; k++) off += snprintf(s + off, sizeof s - (size_t)off, "%d ", eff[k]); hv_viol("ranking.not_identity", "after %s the efficiencies of the %d kinds are [%s], neither all -1 nor 0..nr-1 in kind order", after, nr, s); }
-    if (nr >= 2 && nr <= 256 && all_forced_known) {
+    if (nr >= 2 && nr <= 256 && all_forced_known && RANK_USES_FORCED) {
       int distinct = 1; for (int a = 0; a < nr; a++) for (int b = a + 1; b < nr; b++) if (forced_of[a] == forced_of[b]) distinct = 0;
       if (distinct) {
         hv_stat("ranking.forced_known_distinct", 1);
@@ -157,8 +159,13 @@ static void op_register(void)
   struct hwloc_infos_s infos; struct hwloc_info_s arr[MAXPAIR]; memset(&infos, 0, sizeof infos);
   unsigned np = (unsigned)hv_below(&R, 4); int null_infos = np == 0 && hv_chance(&R, 1, 2);
   struct reg r; memset(&r, 0, sizeof r); r.forced = forced < 0 ? -1 : forced;
+  if (HWLIKE) np = 1 + (unsigned)hv_below(&R, 3), null_infos = 0;   /* every registration carries what the info-based strategies read */
   for (unsigned p = 0; p < np; p++) {
     const char *n = NAMES[hv_below(&R, 6)], *v = VALUES[hv_below(&R, 9)];
+    if (HWLIKE) { static const char *FREQ[] = { "800", "1000", "1800", "2400", "3000", "3600", "5200" }, *CT[] = { "IntelAtom", "IntelCore" };
+      if (p == 0) { n = HWLIKE == 2 ? "CoreType" : "FrequencyMaxMHz"; v = HWLIKE == 2 ? CT[hv_below(&R, 2)] : FREQ[hv_below(&R, 7)]; }
+      else if (p == 1) { n = HWLIKE == 2 ? "FrequencyMaxMHz" : "FrequencyBaseMHz"; v = FREQ[hv_below(&R, 7)]; }
+      else { n = hv_chance(&R, 1, 2) ? "CoreType" : "FrequencyBaseMHz"; v = n[0] == 'C' ? CT[hv_below(&R, 2)] : FREQ[hv_below(&R, 7)]; } }
     if (p && hv_chance(&R, 1, 5)) { n = arr[p - 1].name; v = arr[p - 1].value; }    /* the same pair twice in one call */
     arr[p].name = (char *)n; arr[p].value = (char *)v;
     if (!reg_has_pair(&r, n, v)) { r.n[r.np] = strdup(n); r.v[r.np] = strdup(v); r.np++; }
@@ -181,9 +188,19 @@ static void op_register(void)
   hwloc_bitmap_free(cs);
 }
 
+/* HWLOC_CPUKINDS_RANKING selects the ranking strategy each time the kinds are ranked: the partition, info and "all -1 or 0..nr-1 in
+ * kind order" clauses hold under every strategy, the forced-efficiency clause only where forced efficiencies are consulted first */
+static const char *RANKINGS[] = { "default", "none", "coretype+frequency", "coretype+frequency_strict", "coretype", "frequency", "frequency_max", "frequency_base", "forced_efficiency", "no_forced_efficiency", "not-a-strategy" };
+
 void hv_case(uint64_t index)
 {
   hv_rng_seed(&R, HV.seed, "c15", index);
+  { struct hv_rng er; hv_rng_seed(&er, HV.seed, "c15env", index);
+    HWLIKE = hv_chance(&er, 1, 3) ? 1 + (int)hv_below(&er, 2) : 0; if (HWLIKE) { hv_stat("hwlike_histories", 1); hv_desc("hardware-like infos (%d)\n", HWLIKE); }
+    if (hv_chance(&er, 1, 2)) { unsetenv("HWLOC_CPUKINDS_RANKING"); RANK_USES_FORCED = 1; hv_stat("ranking_env.unset", 1); }
+    else { unsigned k = (unsigned)hv_below(&er, sizeof RANKINGS / sizeof *RANKINGS); setenv("HWLOC_CPUKINDS_RANKING", RANKINGS[k], 1);
+      RANK_USES_FORCED = k == 0 || k == 8 || k == 10; hv_desc("HWLOC_CPUKINDS_RANKING=%s\n", RANKINGS[k]);
+      char nm[64]; snprintf(nm, sizeof nm, "ranking_env.%s", RANKINGS[k]); hv_stat(nm, 1); } }
   struct tg_config c; tg_config_random(&R, &c, 0);
   c.flags &= (HWLOC_TOPOLOGY_FLAG_INCLUDE_DISALLOWED | HWLOC_TOPOLOGY_FLAG_NO_DISTANCES | HWLOC_TOPOLOGY_FLAG_NO_CPUKINDS | HWLOC_TOPOLOGY_FLAG_NO_MEMATTRS);
   struct hv_str cs; hv_str_init(&cs); tg_config_str(&c, &cs);
